@@ -6,6 +6,9 @@ From EP Require Import Base.Bytes Parse.Types Parse.Slices Parse.Cursor Parse.Vi
 (* ---- audit round 1: the finer instrumented strict reference decoder `pwire2_*` ---- *)
 From EP Require Import Parse.LaxWire2.
 (* ---- end audit round 1 ---- *)
+(* ---- round 3 c05d: `pwire3_*`, MACsec short-length fallback with resumed decoding ---- *)
+From EP Require Import Parse.LaxWire3.
+(* ---- end round 3 c05d ---- *)
 From Coq Require Import Extraction ExtrOcamlBasic.
 Extraction Language OCaml.
 Extraction "m_c05.ml"
@@ -19,4 +22,5 @@ Extraction "m_c05.ml"
   IpSlice.from_slice Ipv4Slice.from_slice Ipv6Slice.from_slice Macsec.from_slice UdpSlice.from_slice
   Ipv6ExtensionsSlice.from_slice
   lview_v4 lview_v6 lview_macsec view_net view_ext
-  (* audit round 1 *) pwire2_ethernet pwire2_ether_type pwire2_from_ip.
+  (* audit round 1 *) pwire2_ethernet pwire2_ether_type pwire2_from_ip
+  (* round 3 c05d *) pwire3_ethernet pwire3_ether_type.
